@@ -14,8 +14,9 @@ side of a connection (C08):
     the one call in process_local_event (src/synchronisation/peer_inbound_service.rs)
   * for each data source: whether the SQL / row loop of the function it reaches filters by the room
 
-Deliberately syntactic.  If the code is no longer recognised the script REFUSES (exit 1) and keeps
-nothing: ./chk then reports the tie as broken.
+Deliberately syntactic.  If the code is no longer recognised the script REFUSES (exit 1): ./chk then
+reports the tie as broken.  The table generated from the last recognised source is left in place so
+that the models still compile and ./chk can search for a failing input on the implementation's behaviour.
 """
 import re, sys, os
 
@@ -378,10 +379,7 @@ if __name__ == "__main__":
     try:
         main()
     except Refuse as e:
-        print("extract_outbound: REFUSED: %s" % e)
-        # never keep an old table silently
-        try:
-            os.remove(os.path.join(sys.argv[2], "OutboundTable.v"))
-        except OSError:
-            pass
+        # exit 1: ./chk reports the tie as broken.  The previously generated file is left in place so that the
+        # models still compile and ./chk can go on searching for a failing input on the implementation's behaviour.
+        print("extract_outbound: REFUSED: %s (gen/OutboundTable.v left as generated from the last recognised source)" % e)
         sys.exit(1)
